@@ -278,7 +278,10 @@ pub fn generate(rng: &mut Rng, cfg: &GenConfig) -> Program {
                 let i = rng.below(live_futs.len());
                 let (f, kind) = live_futs.remove(i);
                 let c = rng.below(10);
-                if rng.chance(1, 4) { ops.push(Op::PollOnce(f)); if rng.chance(1, 2) { ops.push(Op::Yield); } }
+                // a future that has been polled is never handed to .sync() afterwards (sync() on a future its queue is
+                // waiting to be polled by can only hang; the model has no such call)
+                let syncf = c >= 6 && c < 8 && kind == "sf";
+                if !syncf && rng.chance(1, 4) { ops.push(Op::PollOnce(f)); if rng.chance(1, 2) { ops.push(Op::Yield); } }
                 if c < 6 { ops.push(Op::Await(f)); }
                 else if c < 8 && kind == "sf" { ops.push(Op::SyncF(f)); }
                 else { ops.push(Op::DropF(f)); }
